@@ -567,6 +567,10 @@ class ObjectStore:
         self.store: Dict[int, Any] = {}
         self.constructed: Set[int] = set()
 
+        # Keeps the configurations alive: entries are keyed by the id of the
+        # configuration, which can be given to another object otherwise
+        self.configs: Dict[int, Any] = {}
+
     def set_constructed(self, identifier: int):
         self.constructed.add(identifier)
 
@@ -1637,6 +1641,7 @@ class ConfigInformation:
 
                 # Store in cache
                 self.objects.add_stub(id(config), o)
+                self.objects.configs[id(config)] = config
 
             return o
 
